@@ -14,6 +14,8 @@ import json
 import os
 import random
 import sys
+
+sys.setrecursionlimit(12000)   # programs are deeply nested lists (json, S-expressions)
 import time
 
 sys.path.insert(0, os.path.dirname(os.path.abspath(__file__)))
